@@ -61,4 +61,5 @@ def build(ub, algebra_text, variant=None):
     ub.emit_fn(VS, "to_guard", "verify", impl=IMPL_G, spec_key="ValueSummary::to_guard", cfg={"receivers": {}, "transform": ("R17", name_iters)})
     ub.emit_fn(VS, "import_into_guard", "verify", impl=IMPL_G, spec_key="ValueSummary::import_into_guard", cfg={"receivers": {}})
     ub.emit_fn(VS, "apply_ite", "verify", impl=IMPL_G, spec_key="ValueSummary::apply_ite", cfg={"receivers": {}, "transform": ("R8", carve_merge)})
+    ub.pin_rest_of_file(VS)   # frame: the other functions of the file (DESIGN 11.12)
     ub.out("} // verus!\nfn main() {}\n")
